@@ -1,5 +1,6 @@
 import CoapVerif.Lemmas.SendQueue
 import CoapVerif.Lemmas.TimerSim
+import CoapVerif.Lemmas.SchedInv
 /-
 C06 — the retransmission queue: every pending message is (re)transmitted on the RFC 7252 §4.2 schedule and
 ends in exactly one outcome.
@@ -739,5 +740,111 @@ open Coap.Msg in
 /-- non-vacuity of `wait_le_every_deadline`: two sessions, deadlines 1010 and 1030, now = 1003: wait 7 -/
 example : let r := prepareCore { now := 1003, q := wq, sess := [{}, {}], out := [] }
     (abs r.1.q).map (·.deadline) = [1010, 1030] ∧ r.2 = 7 := by decide
+
+/-! ## (7) the schedule and the fixed PDU / timeout on M for the whole C06 alphabet, INCLUDING the NSTART gate
+
+Proved directly on the code model M as an invariant (`Coap.Sched`, CoapVerif/Lemmas/SchedInv.lean), not through the
+exact simulation of section (6), so the two cases excluded there are covered: a Confirmable submitted without NSTART
+room waits in the session's delay queue and is first transmitted when an outcome of another message releases the slot
+(`coap_session_connected` drains the delay queue — from the ACK / RST branch of `coap_dispatch` or from the give-up
+branch of `coap_retransmit` in the middle of the due loop); and submissions / RSTs may come at any instant.
+
+Scope `RunG` (threaded along the run, decidable): events `setNow` (monotone), `prepare`, `submit` of a CON — with or
+without NSTART room — whose timeout `T = coap_calc_timeout(…, r)` is positive and inside the no-wrap range D7
+(`T << MAX_RETRANSMIT` < 2^64), `rxAck`, `rxRst`; any number of sessions (`SessOk`: established, socket open,
+1 ≤ NSTART, MAX_RETRANSMIT < 256, nothing delayed initially) sharing the one send queue.  This is the alphabet of the
+property; NON messages, separate responses (cancel by token), invalid codes and session failures belong to C08. -/
+open Coap.Sim Coap.Sched in
+/-- **m_schedule_all** (`retransmit_schedule` on M, full): in EVERY punctual run over the C06 alphabet, any number of
+messages and sessions sharing the send queue, NSTART-delayed messages included: every transmission `tx t s mid k con`
+M ever emits is a Confirmable, belongs to a `coap_send` of (s, mid) in the run with PRNG byte `r`, the first
+transmission `tx t0 s mid 0` of that message is in the outputs, `t = t0 + (2^k − 1)·T` with
+`T = coap_calc_timeout(parameters of s, r)` — the one value drawn at that submission, used for all its
+retransmissions —, and `k ≤ MAX_RETRANSMIT`. -/
+theorem m_schedule_all (now0 : Nat) (sess : List Msg.Sess) (evs : List Msg.Ev)
+    (hs : ∀ se ∈ sess, SessOk se) (hin : RunG (Msg.init now0 sess) evs) (hpu : Punctual (Msg.init now0 sess) evs) :
+    ∀ t s mid k con, Msg.Out.tx t s mid k con ∈ (Msg.run (Msg.init now0 sess) evs).out →
+      con = true ∧ ∃ t0 r, Msg.Ev.submit s true mid r ∈ evs ∧
+        Msg.Out.tx t0 s mid 0 true ∈ (Msg.run (Msg.init now0 sess) evs).out ∧
+        t = sched t0 (calcTimeout (parOf sess s).atI (parOf sess s).atF (parOf sess s).arfI (parOf sess s).arfF r) k ∧
+        k ≤ (parOf sess s).maxRtx := by
+  intro t s mid k con hmem
+  have hi := run_finv (pu := True) (P := fun s mid T => ∃ r, Msg.Ev.submit s true mid r ∈ evs ∧
+      T = calcTimeout (parOf sess s).atI (parOf sess s).atF (parOf sess s).arfI (parOf sess s).arfF r)
+    (gpar_of sess hs) evs _ (finv_init _ _ now0 sess hs) hin (fun _ => hpu) (fun s mid r h => ⟨r, h, rfl⟩)
+  obtain ⟨hc, t0, T, h0, hsch, hk, r, hsub, hT⟩ := hi.outs trivial t s mid k con hmem
+  exact ⟨hc, t0, r, hsub, h0, by rw [← hT]; exact hsch, hk⟩
+
+open Coap.Sim Coap.Sched in
+/-- **m_pending_on_schedule** (`pending_on_schedule` on M, full): … and every node in the send queue is armed for
+the next slot of the schedule of its message: its absolute deadline is `t0 + (2^(cnt+1) − 1)·T` with `t0` the time
+of its first transmission (which is in the outputs) and `T` its stored timeout. -/
+theorem m_pending_on_schedule (now0 : Nat) (sess : List Msg.Sess) (evs : List Msg.Ev)
+    (hs : ∀ se ∈ sess, SessOk se) (hin : RunG (Msg.init now0 sess) evs) (hpu : Punctual (Msg.init now0 sess) evs) :
+    let l := Msg.run (Msg.init now0 sess) evs
+    ∀ p ∈ absP (fun s => (parOf sess s).maxRtx) l.q.base l.q.nodes,
+      ∃ t0, Msg.Out.tx t0 p.2.sess p.2.mid 0 true ∈ l.out ∧ p.1 = sched t0 p.2.T (p.2.cnt + 1) := by
+  intro l p hp
+  have hi := run_finv (pu := True) (P := fun _ _ _ => True)
+    (gpar_of sess hs) evs _ (finv_init _ _ now0 sess hs) hin (fun _ => hpu) (fun _ _ _ _ => trivial)
+  exact hi.pend p hp trivial
+
+open Coap.Sim Coap.Sched in
+/-- **m_pdu_and_timeout_fixed** (byte identity of retransmissions and `T` drawn ONCE, as an invariant, full): in EVERY
+run over the C06 alphabet (punctual or late, NSTART-delayed messages included), every node in the send queue and every
+node in any session's delay queue — whatever has happened to it: delayed by the NSTART gate, drained, any number of
+re-insertions by `coap_retransmit`, pops, removals and insertions of other messages around it — still carries
+exactly what its `coap_send` put there: the fields standing for the PDU (message id, token, type CON) are unchanged,
+and the stored `timeout` is the value `coap_calc_timeout` drew at that submission.  Only the relative time `t` and
+`retransmit_cnt` ever change (`cnt = 0` while delayed, `cnt ≤ MAX_RETRANSMIT` always), so every retransmission delay
+is `timeout << cnt` of that one `T`; and `con_active` never exceeds NSTART. -/
+theorem m_pdu_and_timeout_fixed (now0 : Nat) (sess : List Msg.Sess) (evs : List Msg.Ev)
+    (hs : ∀ se ∈ sess, SessOk se) (hin : RunG (Msg.init now0 sess) evs) :
+    let l := Msg.run (Msg.init now0 sess) evs
+    (∀ n ∈ l.q.nodes,
+      n.con = true ∧ n.tok = n.mid ∧ n.cnt ≤ (parOf sess n.sess).maxRtx ∧
+      ∃ r, Msg.Ev.submit n.sess true n.mid r ∈ evs ∧
+        n.timeout = calcTimeout (parOf sess n.sess).atI (parOf sess n.sess).atF (parOf sess n.sess).arfI
+          (parOf sess n.sess).arfF r) ∧
+    (∀ s, ∀ n ∈ (l.getS s).delayq,
+      n.con = true ∧ n.tok = n.mid ∧ n.cnt = 0 ∧
+      ∃ r, Msg.Ev.submit s true n.mid r ∈ evs ∧
+        n.timeout = calcTimeout (parOf sess s).atI (parOf sess s).atF (parOf sess s).arfI (parOf sess s).arfF r) ∧
+    (∀ s, (l.getS s).conActive ≤ (l.getS s).nstart) := by
+  intro l
+  have hi := run_finv (pu := False) (P := fun s mid T => ∃ r, Msg.Ev.submit s true mid r ∈ evs ∧
+      T = calcTimeout (parOf sess s).atI (parOf sess s).atF (parOf sess s).arfI (parOf sess s).arfF r)
+    (gpar_of sess hs) evs _ (finv_init _ _ now0 sess hs) hin (fun h => h.elim) (fun s mid r h => ⟨r, h, rfl⟩)
+  refine ⟨?_, ?_, ?_⟩
+  · intro n hn
+    obtain ⟨hcon, htok, _, hcnt, _, hP⟩ := hi.nodes n hn
+    exact ⟨hcon, htok, hcnt, hP⟩
+  · intro s n hn
+    obtain ⟨ca, dq, hg, _, hdq⟩ := hi.sess s
+    have hn' : n ∈ dq := by
+      have : (l.getS s).delayq = dq := by rw [hg]
+      rw [← this]; exact hn
+    obtain ⟨hcon, htok, _, _, hcnt, _, hP⟩ := hdq n hn'
+    exact ⟨hcon, htok, hcnt, hP⟩
+  · intro s
+    obtain ⟨ca, dq, hg, hle, _⟩ := hi.sess s
+    rw [hg]; exact hle
+
+/-- witness run with the NSTART gate: ONE session with NSTART 1; message 2 is submitted while message 1 is in flight
+(delayed), message 1 runs out of retransmissions (MAX_RETRANSMIT 1), the give-up inside the due loop releases the
+slot and message 2 is transmitted at that instant; it is retransmitted on its own schedule and then ACKed -/
+def gevs : List Msg.Ev :=
+  [.submit 0 true 1 0, .setNow 100, .submit 0 true 2 255, .setNow 2000, .prepare, .setNow 6000, .prepare,
+   .setNow 9000, .prepare, .rxAck 0 2]
+
+open Coap.Sim Coap.Sched in
+/-- non-vacuity of `m_schedule_all` / `m_pending_on_schedule` / `m_pdu_and_timeout_fixed`: the gated witness run is in
+scope and punctual (it is NOT in the scope `RunIn` of the exact simulation); message 2 (T = 3000) is first transmitted
+at 6000 — the instant message 1 is given up — and again at 9000 -/
+example : (∀ se ∈ [({ maxRtx := 1 } : Msg.Sess)], SessOk se) ∧ RunG (Msg.init 0 [{ maxRtx := 1 }]) gevs ∧
+    Punctual (Msg.init 0 [{ maxRtx := 1 }]) gevs ∧ ¬ RunIn (Msg.init 0 [{ maxRtx := 1 }]) gevs ∧
+    (Msg.run (Msg.init 0 [{ maxRtx := 1 }]) gevs).out.filterMap obsM =
+      [.tx 9000 0 2 1 true, .nackRetries 6000 0 1, .tx 6000 0 2 0 true, .tx 2000 0 1 1 true, .tx 0 0 1 0 true] := by
+  decide
 
 end Coap.C06
